@@ -9,7 +9,7 @@ from mc.enumerate import lattice_points, multisets_upto, distinct_permutations  
 INF = float("inf")
 
 # value transformations x -> a*x + c*(1,1) applied to BOTH diagrams (DESIGN.md section 4, "Aff")
-AFF = [(1.0, 0.0), (0.1, 0.0), (1e6, 0.0), (1.0, -3.7), (1.0 / 3.0, 1e3), (1.0 / 3.0, 1048576.0), (1.0, -2.0), (1e-9, 0.0)]
+AFF = [(1.0, 0.0), (0.1, 0.0), (1e6, 0.0), (1.0, -3.7), (1.0 / 3.0, 1e3), (1.0 / 3.0, 1048576.0), (1.0, -2.0), (1e-13, 0.0)]
 
 
 def aff(D, a, c):
@@ -26,7 +26,8 @@ def iarr(D):
 
 
 def scale_of(*Ds):
-    m = 1.0
+    """largest |coordinate| (no floor: tolerances must shrink with the diagram's own scale)"""
+    m = 1e-300
     for D in Ds:
         for p in D:
             for x in p[:2]:
